@@ -280,4 +280,42 @@ def MWellFormed (R : ReqId → Req) : MOp → Prop
   | .request r => r = R r.id
   | _ => True
 
+
+/-! ## `Request` with its unlocked check of `svc.running`
+
+`Request` reads `svc.running` BEFORE it takes the lock (`requestProgram`: `.free [.stoppedCheck]`). A call that passed
+the check just before `Run`'s stop branch cleared the flag runs its hold on a stopped service: `LOp.late`. -/
+
+/-- the hold of `Request` on a service whose `running` the caller saw `true` earlier -/
+def stepRequestLate (s : Svc) (r : Req) : Svc × List Event :=
+  let x := stepRequest { s with running := true } r
+  ({ x.1 with running := s.running }, x.2)
+
+inductive LOp
+  | op (o : Op)
+  /-- the hold of a `Request` whose stopped check ran (and passed) before the service stopped -/
+  | late (r : Req)
+deriving DecidableEq, Repr
+
+def lstep (s : Svc) : LOp → Svc × List Event
+  | .op o => step s o
+  | .late r => if s.crashed then (s, []) else stepRequestLate s r
+
+def lrun (s : Svc) : List LOp → Svc × List Event
+  | [] => (s, [])
+  | op :: ops =>
+    let r1 := lstep s op
+    let r2 := lrun r1.1 ops
+    (r2.1, r1.2 ++ r2.2)
+
+def LWellFormed (R : ReqId → Req) : LOp → Prop
+  | .op o => WellFormed R o
+  | .late r => r = R r.id
+
+/-- the promise a step hands out, if any -/
+def LOp.reqId : LOp → Option ReqId
+  | .op (.request r) => some r.id
+  | .late r => some r.id
+  | _ => none
+
 end Qryn.Ingest.BatcherLocks
